@@ -516,9 +516,10 @@ pub fn group(ctx: &Ctx, g: u64) -> Vec<Case> {
           points.push(rand_bytes(rng, 32));
         }
         for p in &points {
-          for md in [0u8, 1, 2, 7, 200, 255] {
+          for md in [0u8, 1, 2, 3, 7, 200, 255] {
             for ver in [0u64, 1] {
               out.push(Case { target: Target::ServerEval, desc: format!("md={} verifiable={}", md, ver), blobs: vec![p.clone()], num: md as u64 | ver << 8 });
+              out.push(Case { target: Target::ServerEval, desc: format!("md={} verifiable={} (server that imported its key)", md, ver), blobs: vec![p.clone()], num: md as u64 | ver << 8 | 1 << 9 });
             }
           }
         }
